@@ -14,6 +14,7 @@ from vlib import sched
 from vlib.common import REPO
 
 SIGINT, SIGSTOP, SIGTSTP = 2, 19, 20
+WINDOW = 1          # "a second interrupt within one second", "^Z right after ^C" (the property text, not dsh.h)
 SGN = {SIGINT: "int", SIGTSTP: "tstp"}
 
 TRUSTED = ["Lean 4.33 kernel", "axioms: propext, Classical.choice, Quot.sound at most (audited per theorem)",
@@ -542,7 +543,12 @@ def offenders(res, base):
                 a1, l1 = last_report
                 d2 = ep["times"][0] if ep["times"] else ep["clock_at"]
                 a2 = ep["arrival"] if ep["arrival"] is not None else ep["clock_at"]
-                kind = "abort" if d2 == a1 else "report" if a2 - l1 >= 2 else "either"
+                # the first arrived at a1 and was recorded at l1 >= a1; the second arrived at a2 and is decided at
+                # d2 >= a2.  Decided within one second of the first's ARRIVAL: it arrived within one second, and any
+                # recorded time is at least as late, so both the text and every faithful implementation abort; arrived
+                # two or more seconds after the first was RECORDED: not within one second by any reading; in between,
+                # the latency of the handlers decides
+                kind = "abort" if d2 - a1 <= WINDOW else "report" if a2 - l1 >= WINDOW + 1 else "either"
         elif ep["sig"] == SIGTSTP:
             if last_report is None:
                 kind = "stop"
@@ -550,7 +556,7 @@ def offenders(res, base):
                 a1, l1 = last_report
                 d2 = ep["times"][0] if ep["times"] else ep["clock_at"]
                 a2 = ep["arrival"] if ep["arrival"] is not None else ep["clock_at"]
-                kind = "cancel" if d2 == a1 else "stop" if a2 - l1 >= 2 else "either"
+                kind = "cancel" if d2 - a1 <= WINDOW else "stop" if a2 - l1 >= WINDOW + 1 else "either"
         did_fwd = bool(ep["fwd"])
         did_cancel = ep["tcwin"] is not None
         facts["episodes"].append({"sig": ep["sig"], "kind": kind, "exit": ep["exit"], "fwd": len(ep["fwd"]),
